@@ -245,7 +245,9 @@ func c20RacePass(tier string) {
 	ns := env.NewEnv()
 	call.CallOverrideFN(ns, "cf0", func(ctx context.Context) (types.MalType, error) { return ctx.Value(c20rpKey{}), nil })
 	call.CallOverrideFN(ns, "cf1", func(ctx context.Context, a types.MalType) (types.MalType, error) { return ctx.Value(c20rpKey{}), nil })
-	call.CallOverrideFN(ns, "cfv", func(ctx context.Context, rest ...types.MalType) (types.MalType, error) { return ctx.Value(c20rpKey{}), nil })
+	call.CallOverrideFN(ns, "cfv", func(ctx context.Context, rest ...types.MalType) (types.MalType, error) {
+		return ctx.Value(c20rpKey{}), nil
+	})
 	call.CallOverrideFN(ns, "cfe", func(ctx context.Context, a int) error { return nil })
 	total := 0
 	var mismatch sync.Map
